@@ -241,6 +241,14 @@ def tableProbe (gptOk mbrOk : Bool) : List TableKind → Option TableKind
   | .gpt :: ks => if gptOk then some .gpt else tableProbe gptOk mbrOk ks
   | .mbr :: ks => if mbrOk then some .mbr else tableProbe gptOk mbrOk ks
 
+/-- partition.Read with the as-found switch `checks`: once the GPT reader has accepted, a legacy MBR in
+    sector 0 (`legacy`: MBR signature, at least one used entry, no protective 0xEE entry) that mbr.Read
+    accepts takes precedence - the GPT structures are leftovers of the disk's previous life -/
+def tableProbeL (checks gptOk mbrOk legacy : Bool) (order : List TableKind) : Option TableKind :=
+  match tableProbe gptOk mbrOk order with
+  | some .gpt => if checks && legacy && mbrOk then some .mbr else some .gpt
+  | r => r
+
 /-! ### what FAT12 / FAT16 Create compute and write into sector 0 -/
 
 def lookupSpc (tbl : List (Nat × Nat)) (dflt size : Nat) : Nat :=
